@@ -41,6 +41,30 @@ def run():
         if replay:
             raise MachineryError("replay files of C14 are descriptive; rerun the check")
         return m.main()
+    if prop == "C18":
+        from . import check_netcdf as m
+
+        if replay:
+            raise MachineryError("replay files of C18 are descriptive; rerun the check")
+        return m.main()
+    if prop == "C20":
+        from . import check_sourcearea as m
+
+        if replay:
+            raise MachineryError("replay files of C20 are descriptive; rerun the check")
+        return m.main()
+    if prop == "C05":
+        from . import check_step as m
+
+        if replay:
+            raise MachineryError("replay files of C05 are descriptive; rerun the check")
+        return m.main()
+    if prop == "C08":
+        from . import check_orientation as m
+
+        if replay:
+            raise MachineryError("replay files of C08 are descriptive; rerun the check")
+        return m.main()
     raise MachineryError("no check registered for " + prop)
 
 
